@@ -148,10 +148,10 @@ fn range_pick(rng: &mut Rng, ranges: &[(u32, u32)]) -> char {
 }
 
 impl TextGen {
-    pub fn new(quick: bool) -> TextGen {
+    pub fn new(quick: bool, load: bool) -> TextGen {
         let max = if quick { 1200 } else { 5000 };
         let mut words = Vec::new();
-        for s in SCRIPTS {
+        for s in SCRIPTS.iter().filter(|_| load) {
             let mut w = load_words(s.words, max);
             w.extend(load_words(s.bad_words, max / 2));
             if !w.is_empty() {
